@@ -170,7 +170,12 @@ def run(seed, tier, replay=None):
             g = np.random.default_rng(gs)
             h = clone(g)
             inp = dict(cls="Quadratic", a=C.fhex(a), b=C.fhex(b), c=c, convex=convex, size=size, generator_seed=gs)
-            x = d.sample(size, generator=g)
+            try:
+                x = d.sample(size, generator=g)
+            except Exception as e:  # noqa: BLE001
+                rep.violate(what=f"QuadraticDistribution.sample(size={size!r}) raised on a valid size (the property: a scalar for None, an array of exactly the requested shape otherwise, empty shapes included)",
+                            error=repr(e), input=inp, call="QuadraticDistribution.sample")
+                continue
             u = h.uniform(0., 1., size=size)
             if not check_shape("QuadraticDistribution", inp, size, x):
                 continue
@@ -201,7 +206,12 @@ def run(seed, tier, replay=None):
             h, h2 = clone(g), clone(g)
             inp = dict(cls="NoisyQuadratic", a=C.fhex(a), b=C.fhex(b), c=c, o=C.fhex(o), convex=convex, size=size,
                        generator_seed=gs)
-            x = d.sample(size, generator=g)
+            try:
+                x = d.sample(size, generator=g)
+            except Exception as e:  # noqa: BLE001
+                rep.violate(what=f"NoisyQuadraticDistribution.sample(size={size!r}) raised on a valid size (the property: a scalar for None, an array of exactly the requested shape otherwise, empty shapes included)",
+                            error=repr(e), input=inp, call="NoisyQuadraticDistribution.sample")
+                continue
             u = h.uniform(0., 1., size=size)
             z = h.normal(0, o, size=size)
             u2 = h2.uniform(0., 1., size=size)
